@@ -16,9 +16,9 @@ import (
 
 func init() {
 	register(&propSpec{
-		ID:    "C12",
-		Level: "other",
-		Run:   runC12,
+		ID:          "C12",
+		Level:       "other",
+		Run:         runC12,
 		Explanation: "E-COST: the body of MVP-1's (and MVP-2's, MVP-3's) instruction loop is interpreted to terms with the helper methods inlined; for every path the increments of the cycle counter are extracted and compared with the documented model — fetch (MemoryAccess; L1Access or MemoryAccess on MVP-2/3) + decode + [MemoryAccess iff the instruction reads memory] + InstructionType.Cycles() and then, unless the instruction returned, RegisterAccess iff RegisterChange else MemoryAccess iff MemoryChange (L1Access on a cache hit for MVP-3) — and nothing else writes the counter. R12.2: MVP-2's model equals MVP-1's term by term except the fetch term, which is L1Access or MemoryAccess with L1Access <= MemoryAccess. R12.3: on all twelve variants the returned counter is only ever incremented by non-negative amounts and every iteration of the main loop adds at least one positive constant. R12.4: Cycles() is total and returns constants >= 1. R12.5: the latency table is positive and ordered. Not decided: independence of timing from operand values (an information-flow property through maps, closures and coroutines; declined) and the 'instructions / issue width' lower bound (needs bus-capacity reasoning).",
 		Assumptions: []string{"the latency model is the README's: fetch, decode, optional memory read, execute, write-back"},
 		Trusted:     []string{"go/types", "term engine", "the model transcription in checker/c12.go"},
